@@ -183,18 +183,40 @@ def generations(plan, reuse_instances=False):
     shared = {"rt": BasicRuntime(), "ref": ref, "cls": _mk_class(ref), "dead": set()}
     out = []
     keep = None
-    for (name, runs, instof, limit) in plan:
-        s = System(runs, instof, limit, shared=shared, wf=keep if reuse_instances else None)
+    lines = []           # the whole history as lines of TraceRunLimitGen.tla
+    addr_ix = {}         # id() -> 1, 2, ... in order of first appearance (numbers only: no reference is kept)
+
+    def obs(s_, alive):
+        tab = shared["rt"]._max_concurrent_runs
+        post = s_.project()
+        lines.append({"e": "obs", "present": [tab.get(a) is not None for a, _ix in sorted(addr_ix.items(), key=lambda x: x[1])],
+                      "holding": {i: len(post["inside"][i]) for i in alive},
+                      "waiting": {i: sum(1 for r in s_.runs if s_.instof[r] == i and post["pc"][r] in ("started", "waiting"))
+                                  for i in alive}})
+
+    for gi, (name, runs, instof, limit) in enumerate(plan):
+        fresh = not (reuse_instances and keep is not None)
+        s = System(runs, instof, limit, shared=shared, wf=None if fresh else keep)
         try:
+            if fresh:
+                for i in s.insts:
+                    a = id(s.wf[i])
+                    addr_ix.setdefault(a, len(addr_ix) + 1)
+                    lines.append({"e": "create", "i": i, "addr": addr_ix[a], "limit": int(limit[i])})
             tr = [{"cmds": [["start", r] for r in runs], "post": s.apply([["start", r] for r in runs])}]
+            lines.extend({"e": "start", "i": instof[r]} for r in runs)
+            obs(s, s.insts)
             for _k in range(2 * len(runs)):
                 en = [c for c in s.enabled() if c[0] == "finish"]
                 if not en:
                     break
                 tr.append({"cmds": [list(en[0])], "post": s.apply([en[0]])})
+                lines.append({"e": "finish", "i": instof[en[0][1]]})
+                obs(s, s.insts)
             out.append((name, tr, getattr(s, "reused_address", 0)))
         finally:
             s.close()
+        insts = list(s.insts)
         if reuse_instances:
             keep = dict(s.wf)
         else:
@@ -204,6 +226,12 @@ def generations(plan, reuse_instances=False):
         ref[0] = None
         del s
         gc.collect()
+        if not reuse_instances:
+            lines.extend({"e": "die", "i": i} for i in insts)
+            lines.append({"e": "obs", "present": [shared["rt"]._max_concurrent_runs.get(a) is not None
+                                                  for a, _ix in sorted(addr_ix.items(), key=lambda x: x[1])],
+                          "holding": {}, "waiting": {}})
+    generations.last_history = {"lines": lines, "naddr": max(1, len(addr_ix))}
     return out
 
 
